@@ -25,7 +25,7 @@ META = {
     "assumptions": ["frames with payloads shorter than 2 bytes carry no message number: the oracle neither requires nor forbids returning them",
                     "message number of each frame fixed by assumption (4072 unknown, 1070 reserved, 1005); remaining payload bits free"],
 }
-WALL_BUDGET = {"quick": 480, "thorough": 3000}
+WALL_BUDGET = {"quick": 900, "thorough": 3000}
 QK = ('R0', 'R2', 'R3', 'R19', 'N', 'U0', 'U2', 'UL', 'X1', 'X2')
 QS = ('R0', 'R2', 'R3', 'R19', 'N', 'U0', 'U2', 'X1', 'X2')   # socket jobs: every cut placement, so no 263-byte item
 
